@@ -39,9 +39,10 @@ def vendor_stats_body (vendor, data=b""):
 class Inst (object):
   """name, type byte, valid bytes, embedded length fields [(label, offset)] (all 16 bit), and which
   side may legitimately receive it ('c' controller, 's' switch)."""
-  def __init__ (self, name, data, emb=(), to="cs", big=False):
+  def __init__ (self, name, data, emb=(), to="cs", big=False, groups=None):
     self.name = name; self.data = data; self.typ = data[1]; self.emb = list(emb); self.to = to
     self.big = big
+    self.groups = groups       # None: every corruption group; else the groups this instance adds something to
     assert struct.unpack_from("!H", data, 2)[0] == len(data), name
 
 MX = 0x4d000000          # xid range of the instance under corruption
@@ -67,6 +68,10 @@ def catalogue (hostile_dpid=0x21):
   inner = W.echo_request(MX + 0xe1, b"inner-1") + W.echo_request(MX + 0xe2, b"inner-2")
   L.append(Inst("ECHO_REQUEST.carrier", W.echo_request(x(), bytes(56) + inner)))
   L.append(Inst("VENDOR.carrier", W.vendor(x(), 0x00002320, W.echo_request(MX + 0xe3, b"inner-3") + bytes(37) + inner)))
+  # dense carrier: the body is nothing but complete 8-byte messages, so whatever 8-aligned part of it a receiver
+  # mistakes for the start of a message decodes (and is visibly delivered / answered)
+  dense = b"".join(W.echo_request(MX + 0xd0 + k) for k in range(8))
+  L.append(Inst("ECHO_REQUEST.dense", W.echo_request(x(), dense)))
   L.append(Inst("FEATURES_REQUEST", W.features_request(x()), to="s"))
   L.append(Inst("FEATURES_REPLY", S.features_reply(x(), hostile_dpid, ports, n_buffers=0, capabilities=0xc7), to="c"))
   L.append(Inst("GET_CONFIG_REQUEST", W.get_config_request(x()), to="s"))
@@ -91,6 +96,10 @@ def catalogue (hostile_dpid=0x21):
   fe = S.flow_stats_entry(m, W.a_output(2), cookie=9, priority=10, packet_count=4, byte_count=240)     # 96 bytes
   L.append(Inst("STATS_REPLY.flow", S.stats_reply(x(), W.OFPST_FLOW, fe + fe),
                 emb=[("entry0.length", 12), ("entry0.action0.len", 12 + 90), ("entry1.length", 12 + 96)], to="c"))
+  # list elements of the minimum size (no actions): the entry length is the only thing that says where the entry ends
+  fe0 = S.flow_stats_entry(m, b"", cookie=9, priority=10, packet_count=4, byte_count=240)              # 88 bytes
+  L.append(Inst("STATS_REPLY.flow.noactions", S.stats_reply(x(), W.OFPST_FLOW, fe0 + fe0),
+                emb=[("entry0.length", 12), ("entry1.length", 12 + 88)], to="c", groups=("misc", "seg")))
   L.append(Inst("STATS_REPLY.aggregate", S.stats_reply(x(), W.OFPST_AGGREGATE, S.aggregate_stats_body(4, 240, 1)), to="c"))
   L.append(Inst("STATS_REPLY.table", S.stats_reply(x(), W.OFPST_TABLE, ST.table_entry(dict(
                   table_id=0, name=b"classifier", wildcards=W.OFPFW_ALL, max_entries=1024, active_count=1,
@@ -110,6 +119,44 @@ def catalogue (hostile_dpid=0x21):
     for (label, off) in i.emb:
       assert off + 2 <= len(i.data), (i.name, label)
   return L
+
+
+# ---- messages whose DECLARED length is large and whose bytes all arrive ---------------------------
+BIG_EDGE = (65523, 65524, 65535)          # an error reply quoting the whole message is 12 + L bytes: 65535 / 65536 / 65547
+BIG_NEAR = (65522, 65525, 65534)
+BIG_RECV = (2047, 2048, 2049, 4096, 8191, 8192, 8193)   # around the receivers' recv() sizes (2048 controller, 8192 switch)
+BIG_CORE = ("ECHO_REQUEST", "VENDOR", "PACKET_OUT", "BARRIER_REQUEST", "BARRIER_REPLY")
+
+def padded (data, length):
+  """data followed by zero bytes up to `length`, the header announcing `length` (all of it is sent)."""
+  b = bytearray(data + bytes(length - len(data)))
+  struct.pack_into("!H", b, 2, length)
+  return bytes(b)
+
+def big_catalogue (base, lengths):
+  """For every instance of `base` (not the already big one) and every L in lengths: the instance extended with zero bytes
+  to a declared length of L - a valid large message where the type ends in opaque data (HELLO, ERROR, ECHO, VENDOR,
+  PACKET_IN, PACKET_OUT, vendor stats), a malformed one where the length is fixed or the tail is a list - plus two requests
+  a switch refuses quoting them: a statistics request of an unknown type with an L-byte body and (L % 8 == 0 only) a
+  PACKET_OUT for an unknown buffer id whose action list ends in one vendor action filling the message."""
+  out = []
+  for L in lengths:
+    for i in base:
+      if i.big or len(i.data) > L: continue
+      data = padded(i.data, L)
+      if i.typ == W.PACKET_IN:                 # total_len (length of the frame on the wire) is never below the bytes carried
+        data = data[:12] + struct.pack("!H", L - 18) + data[14:]
+      n = Inst("BIG.%s.%d" % (i.name, L), data, emb=i.emb, to=i.to, big=True)
+      n.bigbase = i.name; n.L = L
+      out.append(n)
+    n = Inst("BIG.STATS_REQUEST.unknown.%d" % L, W.stats_request(MX + 0x71, 0x7777, bytes(L - 12)), to="s", big=True)
+    n.bigbase = "STATS_REQUEST.unknown"; n.L = L; out.append(n)
+    if L % 8 == 0:
+      acts = W.a_output(2) + W.a_vendor(0x2320, bytes(L - 16 - 8 - 8))
+      n = Inst("BIG.PACKET_OUT.unknown-buffer.%d" % L, W.packet_out(MX + 0x72, acts, b"", buffer_id=0x1234, in_port=1),
+               emb=[("actions_len", 14)], to="s", big=True)
+      n.bigbase = "PACKET_OUT.unknown-buffer"; n.L = L; out.append(n)
+  return out
 
 
 # ---- reference framing -------------------------------------------------------------------
